@@ -17,7 +17,16 @@ ORDER = ["Const", "Env", "NormChecked", "NormUnchecked", "EnvRef", "Raw"]       
 SINK_KEYS = {"href", "src", "url"}
 
 
-def worst(a: str, b: str) -> str:
+def worst(a, b):
+    """Join of two classes.  A class is a name of ORDER, or a tuple of classes (the components of a tuple value)."""
+    if isinstance(a, tuple) or isinstance(b, tuple):
+        if isinstance(a, tuple) and isinstance(b, tuple) and len(a) == len(b):
+            return tuple(worst(x, y) for x, y in zip(a, b))
+        if a == "Const":          # None / a constant on one path, a tuple on the other (`return None` vs `return pos, label, ref`)
+            return b
+        if b == "Const":
+            return a
+        return "Raw"
     return a if ORDER.index(a) >= ORDER.index(b) else b
 
 
@@ -95,6 +104,27 @@ class UrlProblem(Problem):
             return env.get(e.id, "Raw")
         if _is_facade_call(self.c, e, "normalizeLink"):
             return "NormUnchecked"
+        if isinstance(e, ast.Tuple):
+            return tuple(self.classify(x, env) for x in e.elts)
+        if isinstance(e, ast.Call) and self.depth < 2:
+            # a private helper of the rule's module: the class of what it returns (component-wise for tuples)
+            cs = self.c.cg.site_of.get(e)
+            if cs is not None and len(cs.callees) == 1 and cs.kind in ("direct", "method") and cs.callees[0].module is self.f.module \
+                    and cs.callees[0] is not self.f:
+                g = cs.callees[0]
+                cache = self.c.__dict__.setdefault("_url_ret", {})
+                if g not in cache:
+                    cache[g] = "Raw"
+                    gp = UrlProblem(self.c, g, self.depth + 1)
+                    gcfg = self.c.cfg(g)
+                    gin = solve(gcfg, gp, narrow_rounds=0)
+                    acc = None
+                    for rn in gcfg.nodes:
+                        if rn.kind == "stmt" and isinstance(rn.ast, ast.Return) and rn.ast.value is not None and gin.get(rn.id) is not None:
+                            k = gp.classify(rn.ast.value, gin[rn.id])
+                            acc = k if acc is None else worst(acc, k)
+                    cache[g] = acc if acc is not None else "Raw"
+                return cache[g]
         if isinstance(e, ast.Subscript) and isinstance(e.slice, ast.Constant) and e.slice.value == "href":
             if isinstance(e.value, ast.Name) and env.get(e.value.id) == "EnvRef":
                 return "Env"
@@ -132,9 +162,10 @@ class UrlProblem(Problem):
                     if isinstance(t, ast.Name):
                         env[t.id] = cls
                     elif isinstance(t, (ast.Tuple, ast.List)):
-                        for e in t.elts:
+                        comp = cls if isinstance(cls, tuple) and len(cls) == len(t.elts) else None
+                        for i_, e in enumerate(t.elts):
                             if isinstance(e, ast.Name):
-                                env[e.id] = "Raw"
+                                env[e.id] = comp[i_] if comp is not None else "Raw"
             elif isinstance(a, ast.AnnAssign) and isinstance(a.target, ast.Name) and a.value is not None:
                 env[a.target.id] = self.classify(a.value, state)
             elif isinstance(a, ast.AugAssign) and isinstance(a.target, ast.Name):
